@@ -224,6 +224,7 @@ structure TM (ν : Type) where
   dt : ν
   expTimes : List ν
   expDt : List ν
+  deriving DecidableEq, Repr
 
 /-- the file: `{"time": [...], "dt": [...]}` as two token lists -/
 abbrev TimeFile (τ : Type) := List τ × List τ
